@@ -8,8 +8,8 @@ from harness.descr import data_real, data_coq, con_src
 from harness.schema_coq import doc_coq, split_defs, Unsupported
 from harness.props.c06 import in_domain, make_data, no_fallback_universe
 
-NEEDED = ["Schema/Json.v", "Schema/Build.v", "Schema/Run.v", "Schema/Versions.v", "Schema/VersionsProofs.v"]
-HEADER_EXTRA = "From AV Require Import Schema.Json Schema.Build Schema.Run Schema.Versions.\n"
+NEEDED = ["Schema/Json.v", "Schema/Build.v", "Schema/Run.v", "Schema/Versions.v", "Schema/VersionsProofs.v", "Schema/Oas30Proofs.v"]
+HEADER_EXTRA = "From AV Require Import Schema.Json Schema.Build Schema.Run Schema.Versions Schema.VersionsProofs Schema.Oas30Proofs.\n"
 
 VERSIONS = [("DRAFT_2019_09", "V2019"), ("DRAFT_7", "V7"), ("OPEN_API_3_0", "VOAS30"), ("OPEN_API_3_1", "VOAS31")]
 
@@ -99,6 +99,56 @@ def drops(doc):
     found = []
     walk(doc, lambda s, p: found.extend(k for k in s if k in ("dependentRequired", "propertyNames")))
     return bool(found)
+
+
+EXTRA_TYPES = [
+    # a list-valued type beside an anyOf (both must hold), a const beside an enum, null beside a constrained union
+    ("Annotated[Union[int, str], schema(extra={'anyOf': [{'minimum': 0}, {'maxLength': 2}]})]",
+     [1.5, 1, -1, "abc", "a", None, True, 2.0, -0.5]),
+    ("Annotated[Literal[1], schema(extra={'enum': [1, 2]})]", [1, 2, 3, "1", None, 1.0]),
+    ("Annotated[Union[int, str, None], schema(min=1, min_len=1)]", [None, 0, 1, "", "a", 1.5, []]),
+    ("Annotated[Union[int, str, None], schema(extra={'anyOf': [{'minimum': 0}, {'maxLength': 2}]})]",
+     [None, 1.5, 1, -1, "abc", "a"]),
+    ("Optional[Annotated[Union[int, str], schema(extra={'anyOf': [{'minimum': 0}, {'maxLength': 2}]})]]",
+     [None, 1.5, 1, -1, "abc", "a"]),
+]
+
+
+def oas30_extra_probe(R, scases, smeta, sdefs):
+    """keywords added through schema(extra=...) can stand beside the ones to_open_api_3_0 rewrites (found while proving
+    C18_openapi_3_0_same_instances: the proof needed side conditions the conversion itself could meet)"""
+    pyrun.ensure_repo_on_path()
+    import jsonschema
+    import typing
+    from apischema import schema
+    from apischema.json_schema import deserialization_schema, JsonSchemaVersion
+    env = dict(vars(typing), schema=schema)
+    for k, (src, datas) in enumerate(EXTRA_TYPES):
+        T = eval(src, env)
+        base = json.loads(json.dumps(deserialization_schema(T, with_schema=False)))
+        oas = json.loads(json.dumps(deserialization_schema(T, version=JsonSchemaVersion.OPEN_API_3_0, with_schema=False)))
+        errs = [e for e in vocabulary_errors("OPEN_API_3_0", oas, "#/components/schemas/") if not e.startswith("KNOWN:")]
+        for err in errs[:1]:
+            R.violation(f"OPEN_API_3_0: {err}", dict(python_type=src, version="OPEN_API_3_0", schema=oas))
+        mapped = oas30_to_2020(oas)
+        for d in datas:
+            ref = jsonschema.Draft202012Validator(base).is_valid(d)
+            got = jsonschema.Draft201909Validator(mapped).is_valid(d)
+            R.count("oas30_extra_probe")
+            if ref != got:
+                R.violation(f"OPEN_API_3_0 schema (documented mapping) {'accepts' if got else 'rejects'} data that the "
+                            f"2020-12 schema {'accepts' if ref else 'rejects'}",
+                            dict(python_type=src, data=d, version="OPEN_API_3_0", schema=oas, schema_2020_12=base))
+                break
+        try:
+            s0n, d0 = doc_coq(base, keep_annot=True, no_marker=True)
+            sv, dv = doc_coq(oas, keep_annot=True)
+            sdefs.append(f"Definition SX{k}_n : js := {s0n}.\nDefinition DX{k} : defs := {d0}.\n"
+                         f"Definition SX{k}_VOAS30 : js := {sv}.\nDefinition DX{k}_VOAS30 : defs := {dv}.")
+            scases.append(f"(VOAS30, SX{k}_n, DX{k}, SX{k}_VOAS30, DX{k}_VOAS30)")
+            smeta.append(dict(python_type=src, version="OPEN_API_3_0", schema_2020_12=base, schema=oas))
+        except Unsupported as e:
+            R.count("schema_outside_model:" + str(e).split()[0])
 
 
 def run(tier):
@@ -253,6 +303,7 @@ def run(tier):
 
     P.hooks.append(hook)
     P.run()
+    oas30_extra_probe(R, scases, smeta, sdefs)
     header = P.header() + HEADER_EXTRA + "\n".join(sdefs) + "\n"
     # 1. the model of versions.py applied to the 2020-12 schema = the implementation's schema for the version
     T1 = "version * js * defs * js * defs"
@@ -264,6 +315,15 @@ def run(tier):
     for i in bad[:6]:
         R.violation(f"{smeta[i]['version']}: the implementation's schema differs from the model of versions.py applied to the "
                     "2020-12 schema", smeta[i], no_input=True)
+    # 1b. OpenAPI 3.0: schemas within the (executable) hypotheses of C18_openapi_3_0_same_instances
+    oas = [c for c in scases if c.startswith("(VOAS30,")]
+    outside, errs = core.run_coq_shards("C18_oas30_hyps", header, oas,
+                                        "(fun c : " + T1 + " => let '(v, s, ds, sv, dsv) := c in "
+                                        "ok30 s && forallb okd30 (map snd ds))", item_type=T1, shard=200)
+    for k, e in errs:
+        R.broken.append(f"coq evaluation failed (C18_oas30_hyps shard {k}): {e[-300:]}")
+    R.hist["oas30_schemas"] = len(oas)
+    R.hist["oas30_schemas_within_the_proved_theorem"] = len(oas) - len(outside)
     R.hist["conversion_cases"] = len(scases)
     R.hist["conversion_mismatches"] = len(bad)
     # 2. the per-dialect validation rules of the model = the oracle validators
